@@ -31,6 +31,7 @@ func init() {
 			r.Cov["exhaustive"] = true
 			r.Cov["per_family"] = m.Counts
 			r.Cov["outcomes"] = m.Outc
+			attachSecondary(r)
 			r.Assume = []string{"alphabets are finite; values outside them are not explored", "every call goes to the real implementation (untransformed /repo)"}
 		},
 		Replay: c16replay,
